@@ -872,6 +872,11 @@ class FnEmitter:
                 return 'U2S_i64(%s)' % self.expr(sub)
             if pair == ('uint32_t', 'int'):
                 return 'U2S_i32(%s)' % self.expr(sub)
+            # signed -> unsigned of the same width: modular, well defined in every C++ (e.g. `uint64_t += int64_t`)
+            if pair == ('int64_t', 'uint64_t'):
+                return 'S2U_u64(%s)' % self.expr(sub)
+            if pair == ('int', 'uint32_t'):
+                return 'S2U_u32(%s)' % self.expr(sub)
         if ck in self.CAST_EXPLICIT:
             return '((%s)(%s))' % (self.ct(n), self.expr(sub))
         if ck in ('IntegralToBoolean', 'FloatingToBoolean', 'PointerToBoolean'):
